@@ -84,6 +84,20 @@ func (w *World) obsAround(target []string) map[string]string {
 
 func runC06Reject(k int, rng *Rng) CaseResult {
 	cfg := genConfig(rng, GenOpts{UniqueBias: 0.35})
+	if k%4 == 0 {
+		// a unique field with a case constraint: members of one batch that differ as given and are
+		// equal once canonicalised (histories aim at them) refuse the whole batch
+		c := cfg.Fields["KS"]
+		c.Index, c.Unique = true, true
+		if !c.Upper && !c.Lower {
+			if rng.Bool() {
+				c.Upper = true
+			} else {
+				c.Lower = true
+			}
+		}
+		cfg.Fields["KS"] = c
+	}
 	if k%3 == 0 {
 		cfg.Cache = true // the rejected value is staged in the cache before the constraint check
 	}
